@@ -122,8 +122,60 @@ def strategy_(draw, tier):
     return {"tree": tree, "exprs": exprs, "where": where}
 
 
+# a text literal next to columns: its value is the text, whatever the text spells (a column's display name)
+LITERALS = ["Name", "Size", "Mode", "Path", "Extension", "Directory", "Modified", "Hardlinks", "name", "Is_dir", "IsDir", "x y"]
+LIT_COMPANY = ["name", "size", "mode", "path", "ext", "dir", "modified", "hardlinks", "is_dir"]
+
+
+@st.composite
+def literal_case_(draw):
+    lits = draw(st.lists(st.sampled_from(LITERALS), min_size=1, max_size=3, unique=True))
+    comp = draw(st.lists(st.sampled_from(LIT_COMPANY), min_size=1, max_size=4, unique=True))
+    wrap = draw(st.sampled_from(["plain", "plain", "upper", "concat", "contains"]))
+    tree = {nm: {"t": "f", "c": "the Mode word and Name Size\n"} for nm in draw(st.lists(st.sampled_from(_fnames), min_size=2, max_size=4, unique=True))}
+    return {"kind": "literals", "tree": tree, "lits": lits, "company": comp, "wrap": wrap, "first": draw(st.booleans())}
+
+
+def check_literals(case):
+    out = Outcome()
+    cdir = runner.new_case_dir()
+    base = os.path.join(cdir, "t")
+    os.mkdir(base)
+    try:
+        trees.materialize(base, case["tree"])
+        w = case["wrap"]
+        def col(l):
+            return {"plain": "'%s'", "upper": "upper('%s')", "concat": "concat('%s', '!')", "contains": "contains('%s')"}[w] % l
+        def want(l):
+            return {"plain": l, "upper": l.upper(), "concat": l + "!", "contains": "true" if l in "the Mode word and Name Size" else "false"}[w]
+        lcols = [col(l) for l in case["lits"]]
+        cols = (lcols + case["company"]) if case["first"] else (case["company"] + lcols)
+        q = "select " + ", ".join(cols) + " from . depth 1 into list"
+        res = runner.run([q], cwd=base)
+        out.evals += 1
+        if res.wall_timeout:
+            out.inconclusive = True
+            return out
+        if res.status != 0 or res.err:
+            out.add("C15/literal/run-failed", query=q, status=res.status, stderr=res.err[:200])
+            return out
+        rows = runner.rows(res.out, len(cols))
+        off = 0 if case["first"] else len(case["company"])
+        for r in rows:
+            for i, l in enumerate(case["lits"]):
+                if r[off + i] != want(l):
+                    out.add("C15/literal/replaced-by-column-value", query=q, literal=l, cell=r[off + i], want=want(l))
+                    return out
+        out.nontrivial = any(l.lower() in case["company"] or l in ("Extension", "Directory") for l in case["lits"])
+        out.classes = ["literal-next-to-columns", "wrap=" + w]
+        out.sample = {"query": q, "rows": len(rows)}
+    finally:
+        runner.rmtree(cdir)
+    return out
+
+
 def strategy(tier):
-    return strategy_(tier)
+    return st.sampled_from(range(10)).flatmap(lambda i: literal_case_() if i == 0 else strategy_(tier))
 
 
 def examples(tier):
@@ -244,6 +296,8 @@ def run_select(out, base, cols, where=None):
 
 
 def check(case):
+    if case.get("kind") == "literals":
+        return check_literals(case)
     out = Outcome()
     exprs = case["exprs"]
     texts = [render(e) for e in exprs]
